@@ -140,6 +140,8 @@ def param_array(call):
 
 
 def rules(ck, P):
+    from . import boxalg as _boxalg
+    _boxalg.box_core_rules(ck, P)
     E = stream_entries(P)
     ck.anchor("R-STREAM-TOTAL", "stream implementations", E, 10)
     # ---------------- R-STREAM-TOTAL
